@@ -54,3 +54,25 @@ K("awkward_IndexedArray_mask",
 K("awkward_ByteMaskedArray_mask",
   store_asserts={"tomask": ["(value != 0) == ((frommask[i] != 0) != validwhen)"]},
   serves=["C09", "C12", "C13"])
+
+# C09 / C02: a bit mask marks element i*8 + j valid exactly when bit j of byte i (counted from the least significant
+# bit when lsb_order, from the most significant otherwise) equals valid_when -- stated from the property, for every
+# bit position, not from the kernel's own definition
+def _bit(j, lsb):
+    return "(frombitmask[i] // %d) %% 2 != 0" % (2 ** (j if lsb else 7 - j))
+
+_BYTE = ["0 <= index - i*8 and index - i*8 < 8"]
+_IDX = ["0 <= index - i*8 and index - i*8 < 8"]
+for _j in range(8):
+    for _lsb in (True, False):
+        _g = "index == i*8 + %d and lsb_order == %s" % (_j, "True" if _lsb else "False")
+        _BYTE.append("implies(%s, (value != 0) == ((%s) != validwhen))" % (_g, _bit(_j, _lsb)))
+        _IDX.append("implies(%s, value == ite((%s) == validwhen, index, -1))" % (_g, _bit(_j, _lsb)))
+
+K("awkward_BitMaskedArray_to_ByteMaskedArray",
+  store_asserts={"tobytemask": _BYTE},
+  serves=["C02", "C09", "C12", "C13"])
+
+K("awkward_BitMaskedArray_to_IndexedOptionArray",
+  store_asserts={"toindex": _IDX},
+  serves=["C02", "C09", "C12", "C13"])
